@@ -4,6 +4,7 @@ mod conc;
 mod core_replay;
 mod edits;
 mod minted;
+mod parser_run;
 
 use api::*;
 use core_replay::*;
@@ -385,6 +386,104 @@ fn run_builder_cmd(args: &[String]) -> i32 {
     0
 }
 
+/// pv run-parser --behaviours F --toks T --family c15|c16|c11 --tier T --seed N --out trace.ndjson
+fn run_parser_cmd(args: &[String]) -> i32 {
+    use std::io::Write;
+    install_panic_hook();
+    let path = arg(args, "--behaviours").expect("--behaviours");
+    let toks_path = arg(args, "--toks").expect("--toks");
+    let family = arg(args, "--family").unwrap_or_else(|| "c15".into());
+    let tier = arg(args, "--tier").unwrap_or_else(|| "quick".into());
+    let seed: u64 = arg(args, "--seed").and_then(|s| s.parse().ok()).unwrap_or(1);
+    let out = arg(args, "--out").expect("--out");
+    let thorough = tier == "thorough";
+    let table: Vec<parser_run::TokRec> = serde_json::from_str(&std::fs::read_to_string(&toks_path).expect("toks")).expect("toks json");
+    let text = std::fs::read_to_string(&path).expect("behaviours");
+    let behs: Vec<parser_run::PBeh> = text.lines().filter(|l| !l.trim().is_empty())
+        .map(|l| serde_json::from_str(l).expect("behaviour line")).collect();
+    let sweep: usize = arg(args, "--sweep-stride").and_then(|s| s.parse().ok()).unwrap_or(0);
+    let chunks: Vec<Vec<String>> = std::thread::scope(|sc| {
+        let mut hs = vec![];
+        for t in 0..THREADS {
+            let behs = &behs;
+            let table = &table;
+            let family = family.clone();
+            hs.push(sc.spawn(move || {
+                let mut r = conc::rng(seed, &format!("parser-{}-{}", family, t));
+                let mut lines = vec![];
+                for (i, beh) in behs.iter().enumerate().filter(|(i, _)| i % THREADS == t) {
+                    for pr in Proto::all() {
+                        let slow = pr.public && (pr.v == 1 || pr.v == 3);
+                        let full = pr.v == 4 || thorough;
+                        if !full && (i % if slow { 16 } else { 6 } != 0) {
+                            continue;
+                        }
+                        if slow && thorough && i % 4 != 0 {
+                            continue;
+                        }
+                        let inst = parser_run::make_pinst(&mut r, i + pr.v as usize * 3 + pr.public as usize);
+                        let base = (i * 7919 + pr.v as usize * 104729) % parser_run::RENDERINGS;
+                        let tsel = move |j: usize| (base + j * 6151) % parser_run::RENDERINGS;
+                        let line = parser_run::run_pbehaviour(&format!("{}:{}", i, pr.name()), pr, beh, table, &inst, &tsel, &mut r);
+                        lines.push(line.to_string());
+                    }
+                }
+                // C11 / C12: the rendering space of past / future instants, 100 parses per parser object
+                if family == "c11" && sweep > 0 {
+                    let combos: [(&str, &str); 8] = [("past", "absent"), ("future", "absent"), ("absent", "past"), ("absent", "future"),
+                                                     ("future", "past"), ("past", "past"), ("future", "future"), ("past", "future")];
+                    for pr in Proto::all() {
+                        let stride = if pr.v == 4 && !pr.public { sweep } else { sweep * 64 };
+                        let slow = pr.public && (pr.v == 1 || pr.v == 3);
+                        let stride = if slow { stride * 4 } else { stride };
+                        for (ci, (e, n)) in combos.iter().enumerate() {
+                            let sels: Vec<usize> = (0..parser_run::RENDERINGS).step_by(stride).collect();
+                            for (bi, block) in sels.chunks(100).enumerate() {
+                                if bi % THREADS != t {
+                                    continue;
+                                }
+                                let mut tbl: Vec<parser_run::TokRec> = vec![];
+                                let mut ops = vec![];
+                                for (j, _) in block.iter().enumerate() {
+                                    let mut claims = vec![];
+                                    if *e != "absent" { claims.push(("exp".to_string(), e.to_string())); }
+                                    if *n != "absent" { claims.push(("nbf".to_string(), n.to_string())); }
+                                    tbl.push(parser_run::TokRec { f: "none".into(), a: "none".into(), k: "k1".into(), edit: "none".into(), json: true, claims });
+                                    ops.push(parser_run::POpRec { op: "parse".into(), k: "k1".into(), v: "".into(), t: j + 1 });
+                                }
+                                let beh = parser_run::PBeh { layer: "prelude".into(), ops };
+                                let inst = parser_run::make_pinst(&mut r, bi);
+                                let blk: Vec<usize> = block.to_vec();
+                                let off = ci * 13;
+                                let tsel = move |j: usize| (blk[j] + off) % parser_run::RENDERINGS;
+                                let line = parser_run::run_pbehaviour(&format!("s{}-{}:{}", ci, bi, pr.name()), pr, &beh, &tbl, &inst, &tsel, &mut r);
+                                lines.push(line.to_string());
+                            }
+                        }
+                    }
+                }
+                lines
+            }));
+        }
+        hs.into_iter().map(|h| h.join().expect("thread")).collect()
+    });
+    let mut f = std::io::BufWriter::new(std::fs::File::create(&out).expect("out"));
+    let mut side = std::io::BufWriter::new(std::fs::File::create(format!("{}.conc", out)).expect("out"));
+    let mut n = 0;
+    for c in chunks {
+        for l in c {
+            // the concrete tokens / values go to a side file with the same line order
+            let mut v: Value = serde_json::from_str(&l).unwrap();
+            let conc = v.as_object_mut().unwrap().remove("conc").unwrap_or(Value::Null);
+            writeln!(f, "{}", v).unwrap();
+            writeln!(side, "{}", conc.as_str().unwrap_or("")).unwrap();
+            n += 1;
+        }
+    }
+    println!("{}", n);
+    0
+}
+
 fn main() {
     let args: Vec<String> = std::env::args().collect();
     let code = match args.get(1).map(|s| s.as_str()) {
@@ -392,6 +491,7 @@ fn main() {
         Some("replay-core") => replay_core(&args),
         Some("minted-checks") => minted_checks(&args),
         Some("run-builder") => run_builder_cmd(&args),
+        Some("run-parser") => run_parser_cmd(&args),
         _ => {
             eprintln!("usage: pv <smoke|replay-core> ...");
             2
